@@ -30,10 +30,10 @@ AllFilesOnSuccess == exit = "zero" => Cardinality(files) = 4 /\ failAt = "none"
 Txt(s) == s   \* text tokens, concretised by the harness: "$default" keeps the tool's default
 Sans == { <<>>, <<"dns">>, <<"ip4">>, <<"ip6">>, <<"dns", "ip4", "ip6", "dns">>, <<"nonascii">>, <<"dns", "nonascii">>, <<"dns-trailing-dot", "ip4-mapped">> }
 Countries == { "$default", "printable-all", "printable-question", "nonprintable-gt", "nonprintable-at", "nonascii", "empty" }
-CommonNames == { "$default", "utf8", "empty", "printable-question" }
+CommonNames == { "$default", "utf8", "empty", "printable-question", "padded", "nbsp-padded", "tab-newline-padded" }   \* white space at either end is part of the name
 Orgs == { "$default", "utf8" }
 NamePairs == { <<"$default", "$default">>, <<"leaf", "ca">>, <<"www.example.org", "example.org.ca">>, <<"site.leaf", "site.ca">>, <<"with space", "root ca">>,
-               <<"same", "same">> }
+               <<"same", "same">>, <<"Gateway", "gateway">>, <<"tls.Prod", "tls.prod">> }   \* names that differ in letter case only are distinct
 Dirs == { "existing", "missing", "nested", "rerun-longer-first" }
 Algs == { "$default", "ed25519", "ecdsa-p256", "ecdsa-p384", "rsa", "ecdsa-p521" }
 Bool == {TRUE, FALSE}
